@@ -814,7 +814,7 @@ func TestVerifC17(t *testing.T) {
 	if vu.ReplayPath() == "" {
 		n, steps := 400, 18
 		if vu.Thorough() {
-			n, steps = 12000, 22
+			n, steps = 8000, 22
 		}
 		n = vu.EnvInt("VERIF_C17_RANDOM", n)
 		rng := vu.Rand(17)
